@@ -7,8 +7,8 @@ HERE = os.path.dirname(os.path.dirname(os.path.abspath(__file__)))
 IDS = ["C02", "C03", "C04", "C05", "C06", "C07", "C08", "C09", "C10", "C15", "C16", "C17"]
 
 
-def row(name, target, caught, note=""):
-    cells = " ".join(("**" + c[1:] + "**" if c == target else c[1:]) if c in caught else "·" for c in IDS)
+def row(name, target, caught, note="", ran=None):
+    cells = " ".join((("**" + c[1:] + "**" if c == target else c[1:]) if c in caught else ("·" if ran is None or c in ran else "–")) for c in IDS)
     return f"| {name} | {target} | {cells} | {note} |"
 
 
@@ -19,7 +19,8 @@ for f in sorted(glob.glob(os.path.join(HERE, "seeded", "*", "meta.json"))):
 out.append(f"### 13.2 Independently seeded changes ({len(metas)} kept)\n")
 out.append("Columns: the checks that reported a violation against the patched tree at the quick tier")
 out.append("(numbers = check ids without the C; bold = the check of the property the change was written")
-out.append("against; · = silent).\n")
+out.append("against; · = silent; – = not run for this change: the last changes of round 4 were evaluated
+against their own check and the most sensitive neighbours only, for lack of machine time).\n")
 out.append("| change | breaks | caught by (" + " ".join(i[1:] for i in IDS) + ") | needs |")
 out.append("|---|---|---|---|")
 missed = []
@@ -30,7 +31,7 @@ for m in metas:
         missed.append(m["id"])
     if m["breaks_property"] not in caught:
         own_missed.append(m["id"])
-    out.append(row(m["id"], m["breaks_property"], caught, m["needs_to_manifest"].replace("|", "/")[:160]))
+    out.append(row(m["id"], m["breaks_property"], caught, m["needs_to_manifest"].replace("|", "/")[:160], set(m.get("checks_evaluated") or IDS)))
 out.append("")
 out.append(f"Caught by at least one check: {len(metas) - len(missed)} of {len(metas)}" + (f"; missed by all: {', '.join(missed)}" if missed else "; none is missed by all") + ".")
 out.append(f"Caught by the check of the property it was written against: {len(metas) - len(own_missed)} of {len(metas)}" + (f" (not by its own check: {', '.join(own_missed)} — see the notes below)" if own_missed else "") + ".\n")
